@@ -110,6 +110,35 @@ struct Acc {
     res: RunResult,
     seen: HashSet<Vec<Ev>>,
     seq_ids: BTreeMap<String, usize>,
+    /// the iteration that has run but whose leak check has not passed yet
+    pending: Option<(Vec<Ev>, String, String)>,
+}
+
+impl Acc {
+    /// the pending iteration completed without a leak report: count it
+    fn commit(&mut self, cfg: &Cfg) {
+        if let Some((log, key, path)) = self.pending.take() {
+            *self.res.outcomes.entry(key.clone()).or_insert(0) += 1;
+            if cfg.want_seq {
+                let n = self.seq_ids.len();
+                let id = *self.seq_ids.entry(key.clone()).or_insert(n);
+                if id == n {
+                    self.res.seq_keys.push(key);
+                }
+                self.res.seq.push(id);
+            }
+            if cfg.want_paths {
+                self.res.paths.push(path);
+            }
+            if cfg.trace_cap > 0 && !self.seen.contains(&log) {
+                self.res.distinct_traces += 1;
+                if self.res.traces.len() < cfg.trace_cap {
+                    self.res.traces.push(evs(&log));
+                }
+                self.seen.insert(log);
+            }
+        }
+    }
 }
 
 pub fn run_program(prog: &Prog, cfg: &Cfg) -> RunResult {
@@ -119,6 +148,7 @@ pub fn run_program(prog: &Prog, cfg: &Cfg) -> RunResult {
         res: RunResult::default(),
         seen: HashSet::new(),
         seq_ids: BTreeMap::new(),
+        pending: None,
     }));
     interp::LOG.with(|l| l.borrow_mut().clear());
 
@@ -134,34 +164,21 @@ pub fn run_program(prog: &Prog, cfg: &Cfg) -> RunResult {
                 let log: Vec<Ev> = interp::LOG.with(|l| std::mem::take(&mut *l.borrow_mut()));
                 a.res.iters = iter;
                 let key = outcome_key(nthreads, &log);
-                *a.res.outcomes.entry(key.clone()).or_insert(0) += 1;
-                if cfg2.want_seq {
-                    let n = a.seq_ids.len();
-                    let id = *a.seq_ids.entry(key.clone()).or_insert(n);
-                    if id == n {
-                        a.res.seq_keys.push(key);
-                    }
-                    a.res.seq.push(id);
-                }
-                if cfg2.want_paths {
-                    a.res.paths.push(path.to_string());
-                }
-                if cfg2.trace_cap > 0 && !a.seen.contains(&log) {
-                    a.res.distinct_traces += 1;
-                    if a.res.traces.len() < cfg2.trace_cap {
-                        a.res.traces.push(evs(&log));
-                    }
-                    a.seen.insert(log);
-                }
-                if let Some(cap) = cfg2.iter_cap {
-                    if iter >= cap {
-                        drop(a);
-                        panic!("verif-cap");
+                a.pending = Some((log, key, path.to_string()));
+            }
+            "step" | "done" => {
+                a.commit(&cfg2);
+                if phase == "step" {
+                    if let Some(cap) = cfg2.iter_cap {
+                        if iter > cap {
+                            drop(a);
+                            panic!("verif-cap");
+                        }
                     }
                 }
             }
-            "start" | "step" => {
-                if cfg2.want_paths && phase == "start" {
+            "start" => {
+                if cfg2.want_paths {
                     a.res.paths.push(format!("START:{}", path));
                 }
             }
@@ -203,6 +220,12 @@ pub fn run_program(prog: &Prog, cfg: &Cfg) -> RunResult {
     }));
     loom::verif::set_iteration_hook(None);
 
+    let pending = acc.borrow_mut().pending.take();
+    if r.is_ok() {
+        // returned between iterations (max_permutations / max_duration): the last iteration passed its leak check
+        acc.borrow_mut().pending = pending.clone();
+        acc.borrow_mut().commit(cfg);
+    }
     let mut out = std::mem::take(&mut acc.borrow_mut().res);
     match r {
         Ok(()) => out.end = "ok".into(),
@@ -217,7 +240,14 @@ pub fn run_program(prog: &Prog, cfg: &Cfg) -> RunResult {
             out.end = classify(&msg).into();
             out.msg = msg.lines().next().unwrap_or("").chars().take(200).collect();
             let log: Vec<Ev> = interp::LOG.with(|l| std::mem::take(&mut *l.borrow_mut()));
-            out.fail_trace = evs(&log);
+            out.fail_trace = match (&pending, out.end.starts_with("leak")) {
+                // a leak report belongs to the iteration that had just run
+                (Some((plog, _, _)), true) => evs(plog),
+                _ => evs(&log),
+            };
+            if out.end == "capped" {
+                out.iters -= 0;
+            }
         }
     }
     out
